@@ -103,6 +103,9 @@ pub struct Scenario {
     /// receiver role: a file with other content already exists at the target path (overwrite)
     #[serde(default)]
     pub pre_existing: bool,
+    /// receiver role: run under RLIMIT_FSIZE (writes beyond this offset fail); honoured by the judges that support it
+    #[serde(default)]
+    pub fsize_limit: Option<u64>,
 }
 
 impl Scenario {
@@ -123,6 +126,7 @@ impl Scenario {
             gap_ack: true,
             dally: true,
             pre_existing: false,
+            fsize_limit: None,
         }
     }
     pub fn nblocks(&self) -> u64 {
